@@ -5,9 +5,9 @@ from run import selftest as W
 from run import witnesses2 as W2
 
 PROPERTY = "C08"
-LEAN_MODULES = ["LccModel.Props.C08"]
-PROPS_FILES = ["LccModel/Props/C08.lean"]
-NAMESPACES = {"LccModel/Props/C08.lean": "LccModel.C08"}
+LEAN_MODULES = ["LccModel.Props.C08", "LccModel.Props.C08Exit"]
+PROPS_FILES = ["LccModel/Props/C08.lean", "LccModel/Props/C08Exit.lean"]
+NAMESPACES = {"LccModel/Props/C08.lean": "LccModel.C08", "LccModel/Props/C08Exit.lean": "LccModel.C08Exit"}
 DRIVER = "drivers/Run.lean"
 TRUSTED_BASE = RUN_TRUSTED + ["decision table of the real RunContext.is_task_to_be_skipped extracted by executing it on all 2^7 combinations of the facts it reads (harness/props/_skiptable.py), re-proved equal to RunAccept.skipReason by `decide +kernel` on every run", "scheduler-only stream with keyboard interrupts injected while the main thread waits AND inside pool.apply_async (drivers/Sched.lean)"]
 ASSUMPTIONS = RUN_ASSUMPTIONS + ["the lost-task hang when the interrupt lands inside pool.apply_async is an open known finding (C08/interrupt-during-dispatch-loses-task); teardown ordering under a keyboard interrupt IS claimed (fix D11)"]
@@ -61,9 +61,43 @@ class Run(PropRunStream):
     quick_cases = 420
     quick_seconds = 55
     p_interrupt = 0.5
+    p_both = 0.05               # a keyboard interrupt in a run whose reporting backend fails (C11 judges the error; here: the skips)
     corpus = [witness("D2 AbortSuite raised in setup_test"), witness("D2 AbortSuite raised in teardown_test"),
-              witness("D2 AbortSuite raised in a test-scoped fixture"), witness("(control) AbortSuite"), witness("D11 ")] + W2.CONTROLS2
+              witness("D2 AbortSuite raised in a test-scoped fixture"), witness("(control) AbortSuite"), witness("D11 "),
+              W2.ABORT_ARGUMENTS, W2.PERTHREAD_FIXTURE_ABORTS_SUITE, W2.PERTHREAD_FIXTURE_ABORTS_ALL, W2.FAULT_THEN_INTERRUPT] + W2.CONTROLS2
+
+
+class RunPT(PropRunStream):
+    """per-thread fixtures whose setup fails — mostly by raising AbortSuite / AbortAllTests — at their first use by a worker,
+    inside the test task (`TestTask._prepare_test_args`), while tests that do not use them are still to start"""
+    name = "C08.run.perthread"
+    prop = "C08"
+    profile = "perthread-abort"
+    oracles = ("C08",)
+    quick_cases = 110
+    quick_seconds = 14
+    thorough_cases = 4000
+    p_interrupt = 0.1
+    corpus = [W2.PERTHREAD_FIXTURE_ABORTS_SUITE, W2.PERTHREAD_FIXTURE_ABORTS_ALL]
+
+
+from props._cli import CliStream, CLI_TRUSTED, CLI_RULE_ABORT, CORPUS_ABORT
+
+
+class Cli(CliStream):
+    """`lcc run` end to end (exit code): "… and the run is reported unsuccessful" — see harness/props/_cli.py"""
+    name = "C08.cli"
+    prop = "C08"
+    mode = "abort"
+    quick_cases = 300
+    quick_seconds = 15
+    thorough_cases = 3000
+    corpus = CORPUS_ABORT
+
+
+TRUSTED_BASE = TRUSTED_BASE + CLI_TRUSTED
+RULE = RULE + "; " + CLI_RULE_ABORT
 
 
 def streams(ctx):
-    return [Sched(), Run()]
+    return [Sched(), Run(), RunPT(), Cli()]
